@@ -174,7 +174,24 @@ func runC14(c *Ctx) {
 						continue // nil check of an interface method value (p.m.ToX): not input dependent
 					}
 					nAssert++
-					c.Fail("R14.2", fmt.Sprintf("unchecked assertion .(%s) in %s", types.TypeString(x.AssertedType, nil), shortFn(f)), x.Pos(),
+					akey := fmt.Sprintf("unchecked assertion .(%s) in %s", types.TypeString(x.AssertedType, nil), shortFn(f))
+					fromParam := false
+					for _, r := range rootsOf(f, x.X, nil) {
+						switch rr := r.(type) {
+						case *ssa.Parameter, *ssa.FreeVar:
+							fromParam = true
+						case *ssa.FieldAddr:
+							switch rr.X.(type) {
+							case *ssa.Parameter, *ssa.FreeVar:
+								fromParam = true
+							}
+						}
+					}
+					if fromParam {
+						c.Undecided("R14.2", akey, x.Pos(), "the asserted value comes from a parameter: what the callers pass decides it, and no rule follows it here")
+						continue
+					}
+					c.Fail("R14.2", akey, x.Pos(),
 						"a non-comma-ok type assertion that no rule discharges: it panics when the dynamic type differs")
 				case *ssa.IndexAddr:
 					nIdx++
@@ -524,7 +541,184 @@ func checkIndexSite(c *Ctx, f *ssa.Function, in ssa.Instruction, x, idx ssa.Valu
 		c.Pass("R14.2", key, in.Pos(), "reviewed: "+why)
 		return
 	}
-	c.Fail("R14.2", key, in.Pos(), "no rule bounds this index by the length of its operand: an input choosing the index or the length makes it panic")
+	if constIndexAtAllCallSites(c, f, x, idx) {
+		c.Pass("R14.2", key, in.Pos(), "the index is a parameter and every call site passes a constant inside the array")
+		return
+	}
+	// exact case: the operand has a constant length and the index is compared with constants only: the interval decides
+	if n, ok := constLenOf(x); ok {
+		if lo, hi, hasLo, hasHi, any := constInterval(in.Block(), idx); any {
+			if hasLo && lo >= 0 && hasHi && hi < n {
+				c.Pass("R14.2", key, in.Pos(), fmt.Sprintf("the index is in [%d, %d] and the operand has %d elements", lo, hi, n))
+				return
+			}
+			miss := "an upper bound below the length"
+			if hasHi && hi < n {
+				miss = "a lower bound (the index is signed and can be negative)"
+			}
+			c.Fail("R14.2", key, in.Pos(), fmt.Sprintf("the operand has %d elements and the guards compare the index with constants only, but they do not establish %s", n, miss))
+			return
+		}
+	}
+	// the index ranges over one collection while the operand was sized by another
+	if mk := madeSliceOf(x); mk != nil {
+		if rng := rangedCollection(idx); rng != nil {
+			if call, ok := mk.Len.(*ssa.Call); ok {
+				if bi, ok := call.Call.Value.(*ssa.Builtin); ok && bi.Name() == "len" && !sameValue(call.Call.Args[0], rng) {
+					c.Fail("R14.2", key, in.Pos(), "the index ranges over "+describeVal(rng)+" but the operand was made with the length of "+describeVal(call.Call.Args[0])+": nothing relates the two lengths")
+					return
+				}
+			}
+		}
+	}
+	// Definite versus undecided: an index that nothing dominating ever compares with anything (and that is not a parameter
+	// a caller could have checked) is unguarded; when some comparison on the index or on a length dominates the site, a guard
+	// exists that this analysis cannot connect to the operand's length (new helper, different representation): undecided.
+	if why := someGuard(f, in.Block(), idx, x); why != "" {
+		if why == "a dominating comparison involves the index" && !nonNegative(in.Block(), idx) {
+			c.Fail("R14.2", key, in.Pos(), "the index is a signed value that the guards bound from above only: nothing establishes that it is not negative")
+			return
+		}
+		c.Undecided("R14.2", key, in.Pos(), "the index is guarded ("+why+") but no rule connects the guard to the length of the operand")
+		return
+	}
+	c.Fail("R14.2", key, in.Pos(), "nothing compares this index with a bound before it is used: an input choosing the index or the length makes it panic")
+}
+
+// someGuard: a reason to believe the index site is guarded in a way the bound rules do not understand; "" if there is none.
+func someGuard(f *ssa.Function, b *ssa.BasicBlock, idx, x ssa.Value) string {
+	// values the index is computed from (through +, -, conversions, phis)
+	fam := map[ssa.Value]bool{}
+	var grow func(v ssa.Value, d int)
+	grow = func(v ssa.Value, d int) {
+		if v == nil || fam[v] || d > 8 {
+			return
+		}
+		fam[v] = true
+		switch t := v.(type) {
+		case *ssa.BinOp:
+			grow(t.X, d+1)
+			grow(t.Y, d+1)
+		case *ssa.Convert:
+			grow(t.X, d+1)
+		case *ssa.ChangeType:
+			grow(t.X, d+1)
+		case *ssa.Phi:
+			for _, e := range t.Edges {
+				grow(e, d+1)
+			}
+		case *ssa.UnOp:
+			grow(t.X, d+1)
+		}
+	}
+	grow(idx, 0)
+	for v := range fam {
+		switch v.(type) {
+		case *ssa.Parameter, *ssa.FreeVar:
+			return "it is (computed from) a parameter, which the callers may have checked"
+		case *ssa.Phi:
+			return "it is a loop-carried counter"
+		}
+	}
+	isLen := func(v ssa.Value) bool {
+		call, ok := v.(*ssa.Call)
+		if !ok {
+			return false
+		}
+		bi, ok := call.Call.Value.(*ssa.Builtin)
+		return ok && (bi.Name() == "len" || bi.Name() == "cap")
+	}
+	for _, cd := range controlConds(b) {
+		bo, ok := cd.v.(*ssa.BinOp)
+		if !ok {
+			continue
+		}
+		switch bo.Op {
+		case token.LSS, token.LEQ, token.GTR, token.GEQ, token.EQL, token.NEQ:
+		default:
+			continue
+		}
+		for _, side := range []ssa.Value{bo.X, bo.Y} {
+			if fam[side] {
+				return "a dominating comparison involves the index"
+			}
+			if isLen(side) {
+				return "a dominating comparison involves a length"
+			}
+		}
+	}
+	// a value kept in a struct field: the type may maintain an invariant about it that is established where the field is written
+	for v := range fam {
+		if u, ok := v.(*ssa.UnOp); ok && u.Op == token.MUL {
+			if _, ok := u.X.(*ssa.FieldAddr); ok {
+				return "it is kept in a struct field, whose invariant is established where the field is written"
+			}
+		}
+	}
+	return ""
+}
+
+// constIndexAtAllCallSites: the operand is an array (length in its type) and the index is a parameter of f for which every
+// static call site in the module passes a constant within the array.
+func constIndexAtAllCallSites(c *Ctx, f *ssa.Function, x, idx ssa.Value) bool {
+	t := x.Type()
+	if p, ok := t.Underlying().(*types.Pointer); ok {
+		t = p.Elem()
+	}
+	arr, ok := t.Underlying().(*types.Array)
+	if !ok {
+		return false
+	}
+	v := idx
+	for {
+		if cv, ok := v.(*ssa.Convert); ok {
+			v = cv.X
+			continue
+		}
+		if ct, ok := v.(*ssa.ChangeType); ok {
+			v = ct.X
+			continue
+		}
+		break
+	}
+	par, ok := v.(*ssa.Parameter)
+	if !ok {
+		return false
+	}
+	pi := -1
+	for i, p := range f.Params {
+		if p == par {
+			pi = i
+		}
+	}
+	if pi < 0 {
+		return false
+	}
+	n := 0
+	okAll := true
+	for path, sp := range c.SSAPk {
+		if sp == nil || !strings.HasPrefix(path, modPath) {
+			continue
+		}
+		for _, g := range allFuncsOfPkgDeep(sp) {
+			allCalls(g, func(call ssa.CallInstruction) {
+				if call.Common().StaticCallee() != f {
+					return
+				}
+				n++
+				args := call.Common().Args
+				if pi >= len(args) {
+					okAll = false
+					return
+				}
+				k, isK := args[pi].(*ssa.Const)
+				if !isK || k.Value == nil || k.Int64() < 0 || k.Int64() >= arr.Len() {
+					okAll = false
+				}
+			})
+		}
+	}
+	return n > 0 && okAll
 }
 
 func checkSliceSite(c *Ctx, f *ssa.Function, x *ssa.Slice, covered, lexMin map[token.Pos]bool) {
@@ -557,7 +751,35 @@ func checkSliceSite(c *Ctx, f *ssa.Function, x *ssa.Slice, covered, lexMin map[t
 		c.Pass("R14.2", key, x.Pos(), "reviewed: "+why)
 		return
 	}
-	c.Fail("R14.2", key, x.Pos(), "no rule establishes the slice bounds")
+	var why string
+	for _, bv := range []ssa.Value{x.Low, x.High} {
+		if bv == nil {
+			continue
+		}
+		if _, isConst := bv.(*ssa.Const); isConst {
+			// a constant bound needs a test on the length
+			for _, cd := range controlConds(x.Block()) {
+				if bo, ok := cd.v.(*ssa.BinOp); ok {
+					for _, side := range []ssa.Value{bo.X, bo.Y} {
+						if call, ok := side.(*ssa.Call); ok {
+							if bi, ok := call.Call.Value.(*ssa.Builtin); ok && bi.Name() == "len" {
+								why = "a dominating comparison involves a length"
+							}
+						}
+					}
+				}
+			}
+			continue
+		}
+		if w := someGuard(f, x.Block(), bv, x.X); w != "" {
+			why = w
+		}
+	}
+	if why != "" {
+		c.Undecided("R14.2", key, x.Pos(), "the bounds are guarded ("+why+") but no rule connects the guard to the length of the operand")
+		return
+	}
+	c.Fail("R14.2", key, x.Pos(), "nothing compares the slice bounds with a length before they are used")
 }
 
 // lenAtLeast: the controlling conditions imply len(x) >= k.
@@ -1826,4 +2048,124 @@ func madeSliceOf(x ssa.Value) *ssa.MakeSlice {
 	}
 	mk, _ := stores[0].Val.(*ssa.MakeSlice)
 	return mk
+}
+
+// constLenOf: the operand's length is a compile-time constant (an array, or a slice made with a constant length).
+func constLenOf(x ssa.Value) (int64, bool) {
+	t := x.Type()
+	if p, ok := t.Underlying().(*types.Pointer); ok {
+		t = p.Elem()
+	}
+	if arr, ok := t.Underlying().(*types.Array); ok {
+		return arr.Len(), true
+	}
+	if mk := madeSliceOf(x); mk != nil {
+		if k, ok := mk.Len.(*ssa.Const); ok && k.Value != nil {
+			return k.Int64(), true
+		}
+	}
+	return 0, false
+}
+
+// constInterval: the interval that the dominating comparisons of idx with constants establish.
+func constInterval(b *ssa.BasicBlock, idx ssa.Value) (lo, hi int64, hasLo, hasHi, any bool) {
+	base := stripConv(idx)
+	for _, cd := range controlConds(b) {
+		bo, ok := cd.v.(*ssa.BinOp)
+		if !ok {
+			continue
+		}
+		var k *ssa.Const
+		op := bo.Op
+		if stripConv(bo.X) == base {
+			k, _ = bo.Y.(*ssa.Const)
+		} else if stripConv(bo.Y) == base {
+			k, _ = bo.X.(*ssa.Const)
+			switch op { // k OP idx  ->  idx OP' k
+			case token.LSS:
+				op = token.GTR
+			case token.LEQ:
+				op = token.GEQ
+			case token.GTR:
+				op = token.LSS
+			case token.GEQ:
+				op = token.LEQ
+			}
+		}
+		if k == nil || k.Value == nil {
+			continue
+		}
+		v := k.Int64()
+		if !cd.pol {
+			switch op {
+			case token.LSS:
+				op = token.GEQ
+			case token.LEQ:
+				op = token.GTR
+			case token.GTR:
+				op = token.LEQ
+			case token.GEQ:
+				op = token.LSS
+			default:
+				continue
+			}
+		}
+		switch op {
+		case token.LSS:
+			if !hasHi || v-1 < hi {
+				hi, hasHi = v-1, true
+			}
+			any = true
+		case token.LEQ:
+			if !hasHi || v < hi {
+				hi, hasHi = v, true
+			}
+			any = true
+		case token.GTR:
+			if !hasLo || v+1 > lo {
+				lo, hasLo = v+1, true
+			}
+			any = true
+		case token.GEQ:
+			if !hasLo || v > lo {
+				lo, hasLo = v, true
+			}
+			any = true
+		}
+	}
+	if bt, ok := base.Type().Underlying().(*types.Basic); ok && bt.Info()&types.IsUnsigned != 0 && !hasLo {
+		lo, hasLo = 0, true
+	}
+	return
+}
+
+// rangedCollection: idx is the index variable of a range loop (rotated form: phi[-1, phi+1] compared with len(c)); returns c.
+func rangedCollection(idx ssa.Value) ssa.Value {
+	phi, ok := idx.(*ssa.Phi)
+	if !ok {
+		if bo, ok := idx.(*ssa.BinOp); ok && bo.Op == token.ADD {
+			phi, _ = bo.X.(*ssa.Phi)
+		}
+		if phi == nil {
+			return nil
+		}
+	}
+	for _, e := range phi.Edges {
+		bo, ok := e.(*ssa.BinOp)
+		if !ok || bo.Op != token.ADD || bo.X != ssa.Value(phi) {
+			continue
+		}
+		for _, v := range []ssa.Value{phi, bo} {
+			for _, r := range *v.Referrers() {
+				if cmp, ok := r.(*ssa.BinOp); ok && cmp.Op == token.LSS && cmp.X == v {
+					if call, ok := cmp.Y.(*ssa.Call); ok {
+						if bi, ok := call.Call.Value.(*ssa.Builtin); ok && bi.Name() == "len" {
+							return call.Call.Args[0]
+						}
+					}
+				}
+			}
+		}
+	}
+	return nil
 }
